@@ -369,6 +369,8 @@ DoList(db, c, k, a, t, now) ==
        [] c = "ltrim"  -> LET b == IdxRange(n, a[1], a[2])
                           IN IF n = 0 THEN Res(db, ROk)
                              ELSE Res(Put(CNorm("l", [lv EXCEPT !.q = SubSeq(lv.q, b[1], b[2])])), ROk)
+       \* repair command (admin): on a healthy list nothing changes
+       [] c = "lfixkey"   -> Res(db, ROk)
        [] c = "lclear"    -> DoCollExt(db, "l", "clear", k, a, t, now)
        [] c = "lkeyexist" -> DoCollExt(db, "l", "keyexist", k, a, t, now)
        [] c = "lexpire"   -> DoCollExt(db, "l", "expire", k, a, t, now)
@@ -450,6 +452,8 @@ DoZSet(db, c, k, a, t, now) ==
                                    IN Rem({zw[i] : i \in b[1]..b[2]})
        [] c = "zremrangebyscore" -> Rem({m \in DOMAIN lv.sc : InScore(lv.sc[m], a[1], a[2], a[3], a[4])})
        [] c = "zremrangebylex"   -> Rem({m \in DOMAIN lv.sc : InLex(m, a[1], a[2], a[3], a[4])})
+       \* repair command (admin): on a healthy sorted set nothing changes
+       [] c = "zfixkey"   -> Res(db, ROk)
        [] c = "zclear"    -> DoCollExt(db, "z", "clear", k, a, t, now)
        [] c = "zkeyexist" -> DoCollExt(db, "z", "keyexist", k, a, t, now)
        [] c = "zexpire"   -> DoCollExt(db, "z", "expire", k, a, t, now)
@@ -504,11 +508,11 @@ KVCmds == {"get", "strlen", "exists", "exists2", "mget", "getrange", "ttl", "set
            "expire", "persist"}
 HCmds  == {"hget", "hmget", "hexists", "hlen", "hgetall", "hkeys", "hvals", "hset", "hsetnx", "hmset", "hdel",
            "hdel2", "hincrby", "hclear", "hkeyexist", "hexpire", "httl", "hpersist"}
-LCmds  == {"llen", "lindex", "lrange", "lpush", "lpush2", "rpush", "rpush2", "lpop", "rpop", "lset", "ltrim",
+LCmds  == {"lfixkey", "llen", "lindex", "lrange", "lpush", "lpush2", "rpush", "rpush2", "lpop", "rpop", "lset", "ltrim",
            "lclear", "lkeyexist", "lexpire", "lttl", "lpersist"}
 SCmds  == {"scard", "sismember", "smembers", "srandmember", "sadd", "sadd2", "srem", "srem2", "spop", "spopn",
            "sclear", "skeyexist", "sexpire", "sttl", "spersist"}
-ZCmds  == {"zrangebyscorel", "zrevrangebyscorel", "zrangebylexl", "zcard", "zscore", "zrank", "zrevrank", "zrange", "zrevrange", "zrangebyscore", "zrevrangebyscore",
+ZCmds  == {"zfixkey", "zrangebyscorel", "zrevrangebyscorel", "zrangebylexl", "zcard", "zscore", "zrank", "zrevrank", "zrange", "zrevrange", "zrangebyscore", "zrevrangebyscore",
            "zcount", "zrangebylex", "zlexcount", "zadd", "zadd2", "zincrby", "zrem", "zrem2", "zremrangebyrank",
            "zremrangebyscore", "zremrangebylex", "zclear", "zkeyexist", "zexpire", "zttl", "zpersist"}
 ReadCmds == {"get", "strlen", "exists", "exists2", "mget", "getrange", "ttl",
